@@ -26,6 +26,18 @@ func init() {
 		if meta != nil {
 			m.unsupported("json.Marshal of twirpError with meta")
 		}
+		if code.Concrete() && msg.Concrete() {
+			// concrete texts: the real encoding/json runs (escaping included)
+			b, err := json.Marshal(struct {
+				Code    string            `json:"code"`
+				Message string            `json:"msg"`
+				Meta    map[string]string `json:"meta"`
+			}{Code: code.S, Message: msg.S})
+			if err != nil {
+				m.unsupported("json.Marshal failed natively: " + err.Error())
+			}
+			return Tuple{m.strToBytes(Str{S: string(b)}), Iface{}}
+		}
 		for k := 0; k < msg.Len(); k++ {
 			c := m.strAt(msg, k)
 			plain := m.C.And(m.C.And(m.C.Cmp(OpUle, m.C.BV(8, 0x20), c), m.C.Cmp(OpUlt, c, m.C.BV(8, 0x7f))),
